@@ -286,7 +286,7 @@ func genRace(t *rapid.T) RaceCase {
 	c := RaceCase{Binary: rapid.Bool().Draw(t, "binary"), Queue: rapid.SampledFrom([]int{1, 2, 4, 8, 64}).Draw(t, "queue"), Reports: rapid.OneOf(rapid.IntRange(1, 30), rapid.IntRange(100, 300)).Draw(t, "reports")}
 	n := rapid.IntRange(2, 10).Draw(t, "n")
 	for i := 0; i < n; i++ {
-		c.Goroutines = append(c.Goroutines, rapid.SampledFrom([]int{0, 1, 2, 3, 3, 3, 4, 5, 6, 6, 7}).Draw(t, "kind"))
+		c.Goroutines = append(c.Goroutines, rapid.SampledFrom([]int{0, 1, 2, 3, 3, 3, 4, 5, 6, 6, 7, 8, 8, 8}).Draw(t, "kind"))
 	}
 	c.CloseAt = rapid.SampledFrom([]int{0, 0, 20, 100, 1000}).Draw(t, "closeAt")
 	c.KillSink = rapid.IntRange(0, 1).Draw(t, "kill") == 0
@@ -360,6 +360,9 @@ func runRace(c RaceCase) (pbt.Outcome, error) {
 					// histograms allocated concurrently under ONE shared tag set (the converted tags are shared
 					// through the reporter's tag cache), value and duration flavour: different bucket strings
 					r.AllocateHistogram(fmt.Sprintf("hv%d", i%2), map[string]string{"x": "y"}, tally.ValueBuckets{1, 2, 1000000}).ValueBucket(2, 1000000).ReportSamples(1)
+				case 8:
+					// a tag set the reporter has never seen, every time (its tag cache takes a new entry)
+					r.AllocateCounter("fresh", map[string]string{"k": fmt.Sprintf("%d-%d", gi, i), "g": fmt.Sprint(gi)}).ReportCount(1)
 				case 7:
 					r.AllocateHistogram(fmt.Sprintf("hd%d", i%2), map[string]string{"x": "y"}, tally.DurationBuckets{time.Millisecond, time.Second}).DurationBucket(time.Millisecond, time.Second).ReportSamples(1)
 				}
@@ -417,7 +420,7 @@ func runRace(c RaceCase) (pbt.Outcome, error) {
 func TestRace(t *testing.T) {
 	pbt.Main(t, pbt.Prop[RaceCase]{
 		ID: "C14", Name: "race",
-		Rule: "free-running mode (real parallelism, built with -race, hooks inject seeded Gosched perturbation, also in the batching goroutine between counting a batch's metrics and counting the batch): 2..10 goroutines each repeat 1..30 (or 100..300) calls of one kind (counter, gauge, timer, ReportSamples on ONE shared histogram-bucket handle, Flush, Allocate+report of counters, of value and of duration histograms under one shared tag set) while another goroutine calls Close (at once or after 20us..1ms) and then Close again, optionally with the destination socket closed mid-run or before the first call (send errors); both protocols; queue 1/2/64. Oracle: no panic, all calls return within 30s, first Close nil and second Close an error, no reporter goroutine left, calls after Close are harmless, and no race-detector report. Non-trivial: >=2 goroutines share the bucket handle, or Close races the producers within 200us.",
+		Rule: "free-running mode (real parallelism, built with -race, hooks inject seeded Gosched perturbation, also in the batching goroutine between counting a batch's metrics and counting the batch): 2..10 goroutines each repeat 1..30 (or 100..300) calls of one kind (counter, gauge, timer, ReportSamples on ONE shared histogram-bucket handle, Flush, Allocate+report of counters, of value and of duration histograms under one shared tag set, of counters under a tag set that is new every time) while another goroutine calls Close (at once or after 20us..1ms) and then Close again, optionally with the destination socket closed mid-run or before the first call (send errors); both protocols; queue 1/2/64. Oracle: no panic, all calls return within 30s, first Close nil and second Close an error, no reporter goroutine left, calls after Close are harmless, and no race-detector report. Non-trivial: >=2 goroutines share the bucket handle, or Close races the producers within 200us.",
 		Gen:  genRace, Run: runRace,
 		// the schedule is not part of the case: a replay (and, after a first failure, every shrink
 		// candidate) is run up to Retries times and fails if any run fails
